@@ -219,10 +219,10 @@ def run(ctx):
     binary = build(ctx)
     record_and_judge(ctx, binary, PARTS)
     ctx.exhaustive = False
-    ctx.rule = ("one record per call of a real fcppt function: every sequence over {0,1,2} of length <= 6 (vector: with every "
-                "predicate / unary / optional table in both tiers; list, deque: length <= 5 in quick, <= 6 thorough; in quick "
-                "the 27/64/125-table families are seeded samples for inputs longer than 4 (vector) / 3 (others), thorough "
-                "enumerates them all), every string over {a,b,delimiter} <= 7, sorted inputs for binary_search/equal_range, all "
+    ctx.rule = ("one record per call of a real fcppt function: every sequence over {0,1,2} of length <= 6 (list, deque: "
+                "length <= 5 in quick) with all 8 predicate tables; the 27 unary / 64 optional / 125 sequence-valued table "
+                "families are enumerated completely for inputs up to length 4 (vector) / 3 (others) in quick and seeded "
+                "samples beyond, thorough enumerates them all; every string over {a,b,delimiter} <= 7, sorted inputs for binary_search/equal_range, all "
                 "std::map over keys/values {0,1,2}, all pairs of subsets of 0..3 (0..4 thorough), arrays/tuples of size 0..5; "
                 "fold / fold_break tables (3^9 / 6^9 of them) are seeded random in both tiers, hence exhaustive=false; "
                 "a class = (function, source, target or value category, input length, log stopped early?, result empty?)")
